@@ -118,7 +118,13 @@ def spans_of(relfile):
     """items of a repo file (cached per process)"""
     if relfile in _span_cache:
         return _span_cache[relfile]
-    path = relfile if os.path.isabs(relfile) else os.path.join(REPO, relfile)
+    if relfile.startswith("@registry/"):
+        # a dependency's source, verbatim from the offline cargo registry (version pinned by Cargo.lock)
+        import glob
+        hits = sorted(glob.glob(os.path.expanduser("~/.cargo/registry/src/*/" + relfile[len("@registry/"):])))
+        path = hits[0] if hits else relfile
+    else:
+        path = relfile if os.path.isabs(relfile) else os.path.join(REPO, relfile)
     if not os.path.exists(path):
         raise AnchorLost(f"file not found: {relfile}")
     p = subprocess.run([SPANS, path], capture_output=True, text=True)
